@@ -484,7 +484,10 @@ func runC38(c *core.Ctx) error {
 	cover := map[string]int{}
 	var cmu sync.Mutex
 	var jobs []func() error
-	devNoMC := os.Getenv("VERIF_RPC_DEV") == "nomc" // DEV ONLY
+	// development switch (mutation experiments): skips the exhaustive model checking and shrinks
+	// the workload; such a run never yields "held" (it ends inconclusive unless it found a violation)
+	devNoMC := os.Getenv("VERIF_RPC_DEV") != ""
+	devFast := os.Getenv("VERIF_RPC_DEV") == "fast"
 	if devNoMC {
 		mcs = nil
 	}
@@ -537,6 +540,9 @@ func runC38(c *core.Ctx) error {
 		{name: "shutdown", calls: []int{1, 2, 3}, nc1: 2, workers: 2, memLimit: 3, closes: 1, cancel: []int{1, 2}, outs: allOuts, shutdown: true, orphans: true},
 	}
 	perProfile := c.Pick(5, 60)
+	if devFast {
+		perProfile = 2
+	}
 	shapes := make([][]scenario, len(profiles))
 	for pi, p := range profiles {
 		pi, p := pi, p
@@ -609,7 +615,7 @@ func runC38(c *core.Ctx) error {
 			}
 		}
 	}
-	if nShapes < 20 {
+	if nShapes < 20 && !devFast {
 		return fmt.Errorf("vacuous: TLC generated only %d scenario shapes", nShapes)
 	}
 	for e := range envs {
@@ -686,6 +692,9 @@ func runC38(c *core.Ctx) error {
 	}
 	if st.diverged*2 > st.scenarios {
 		return fmt.Errorf("%d of %d scenarios diverged from their TLC shape: forcing is ineffective", st.diverged, st.scenarios)
+	}
+	if devNoMC {
+		return fmt.Errorf("development mode (VERIF_RPC_DEV): not a verdict")
 	}
 	if len(st.unrepro) > 0 {
 		return fmt.Errorf("%d trace rejection(s) were not reproduced in a fresh process (inconclusive): %s", len(st.unrepro), st.unrepro[0])
